@@ -1,6 +1,8 @@
+pub mod fen;
 pub mod hash;
 pub mod movegen;
 pub mod statics;
+pub mod timectl;
 use crate::runner::{CaseResult, Ctx};
 use serde_json::Value;
 
@@ -41,6 +43,16 @@ pub fn run(ctx: &mut Ctx) -> bool {
             ctx.assumptions = vec!["the mirror transformation is the oracle's (validated as an involution preserving move counts)".into()];
             statics::run_c14(ctx);
         }
+        "C15" => {
+            ctx.rule = "Cases are strings: arbitrary unicode strings, six-field-shaped strings with per-field garbage (multi-byte characters, over-long rows, digits 0/9, two-byte en passant fields, huge/negative counters), FENs of generated legal positions with half-move clock 0..200 and move number 1..9000 (dense at 255/256/257), and 0-3 character-level mutations of those. Oracle: from_fen never unwinds; when the independent strict reader says the string is a well-formed FEN of a legal position with counters in that range, from_fen must return Ok with exactly that placement, side, rights, en passant target, king squares and the from-scratch key. Black-box: for generated strings the loader rejects, `walleye --fen=<s> -T -d 1` prints the loader's error, exits 0, no panic. Non-trivial = string with exactly six space-separated fields, or an accepted FEN with a counter above 255 or an en passant square; distinct by string.".into();
+            ctx.assumptions = vec!["strict FEN reader in harness/src/oracle.rs (independent of board.rs)".into(), "a FEN with counters outside 0..=200 / 1..=9000 or a non-standard castling field order may be accepted or rejected (only no-panic is required)".into()];
+            fen::run_c15(ctx);
+        }
+        "C09" => {
+            ctx.rule = "Pure part: cases are (wtime, btime, winc, binc, movestogo, side) tuples from a mixture of negative, zero, 1..200 (dense at 99/100/101), 10^2..10^7, powers of two up to 2^62 and i128 extremes, movestogo absent / 1..40 / 10^4 / u32::MAX, plus the exhaustive grid clock 0..=400 x inc {0,1,50,1000} x movestogo {absent,1,30} x both colours. Oracle (upper bounds only, +1 ms rounding, 1e-9 relative for f64 at huge values): (i) result unchanged when the opponent's clock and increment are replaced; (ii) clock > 100 => slice <= 0.8*(clock-100)/mtg with mtg = 30 when absent; (iii) clock <= 100 and inc <= 0 => 0; (iv) slice <= max(clock,0) except the listed known finding F6. parse_go_command is checked on generated token lists (fields in any order, ignorable tokens at key boundaries). Non-trivial = clock within 5 ms of the margin, or the two clocks differ by more than 2x, or an increment-only case; for parsing, a list containing ignored tokens; distinct by parameter tuple.".into();
+            ctx.assumptions = vec!["a more cautious policy than the stated bound is not a violation (the property says 'at most')".into()];
+            timectl::run_c09_pure(ctx);
+        }
         _ => return false,
     }
     true
@@ -54,6 +66,8 @@ pub fn replay(prop: &str, _family: &str, case: &Value) -> CaseResult {
         "C04" => hash::replay_c04(case),
         "C06" => statics::replay_c06(case),
         "C14" => statics::replay_c14(case),
+        "C15" => fen::replay_c15(case),
+        "C09" => timectl::replay_c09_pure(case).unwrap_or_else(|| Err("unknown C09 replay case".into())),
         "C05" => hash::replay_c05(case),
         _ => Err(format!("no replay for property {}", prop)),
     }
